@@ -151,3 +151,25 @@ INFO.update({
 })
 NOT_DECIDED = {k: v.get('not_decided', []) for k, v in INFO.items()}
 ASSUMPTIONS = {k: v.get('assumptions', []) for k, v in INFO.items()}
+
+
+# clauses added after the blind second round of seeded changes (rules R-C02-6, R-C07-7, R-C08-7, R-C09-6, R-C13-5, R-C15-7, R-C17-5,
+# R-C19-6, R-C20-7 and the new clauses of existing rules)
+_EXTRA_DECIDES = {
+    'C02': 'every regular piece of split_input goes to merge_bytes whole and once (single caller); the table producer records a merge in every iteration that selected a pair (dense ids)',
+    'C05': 'workers are dedicated threads (not a shared pool) and pull one item at a time',
+    'C07': 'explicit panic sites of next / next_idx / all_finished are the reviewed inventory (a complete cyclic search is recognised and justified)',
+    'C08': 'the worker count flows only into pipe(.., n)',
+    'C09': 'producer threads are detached and no Drop receives or joins',
+    'C10': 'the repaired output is append-only; the task labels are exactly the operations of (input, target) between the -1 frames',
+    'C11': 'clean() returns only the string it built; word ranges are measured in Characters only',
+    'C13': 'decision table of the evaluated operations per mode; inclusive word-end attribution in _group_words',
+    'C14': 'the corrupted text is one pass over the characters and is not modified afterwards; labels = operations(input, target)',
+    'C15': 'lengths in edit_word are measured in Characters only',
+    'C17': 'framing by add_prefix_and_suffix agrees with the seeded group counts (R-C01-1 re-evaluated)',
+    'C19': 'every occurrence of a pair in a word is counted; training starts from single bytes',
+    'C20': 'distances are never truncated to integers',
+}
+for _k, _v in _EXTRA_DECIDES.items():
+    if _k in INFO and _v not in INFO[_k]['decides']:
+        INFO[_k]['decides'] = INFO[_k]['decides'] + '; ' + _v
